@@ -205,7 +205,19 @@ func vfC17Class(custom, standard string, producible []string, gotEnc string, got
 	if !find(custom, "custom") {
 		find(standard, "standard")
 	}
-	return "got=" + got + ":want=" + strings.Join(ws, "|") + ":decider=" + spelling
+	// a look-alike unknown coding (contains a codec name) is present: substring
+	// matching defects land in their own signatures
+	look := ""
+	for _, raw := range strings.Split(custom+","+standard, ",") {
+		n, _, _ := strings.Cut(raw, ";")
+		n = strings.ToLower(strings.Trim(n, " \t"))
+		for _, c := range []string{"zstd", "gzip", "identity"} {
+			if n != c && strings.Contains(n, c) {
+				look = ":with-lookalike-token"
+			}
+		}
+	}
+	return "got=" + got + ":want=" + strings.Join(ws, "|") + ":decider=" + spelling + look
 }
 
 func vfC17LevelClass(level int) string {
@@ -220,16 +232,21 @@ func vfC17LevelClass(level int) string {
 
 var vfC17Alphabet = []string{"zstd", "gzip", "identity", "br", "", "ZSTD", " zstd ", "zstd;q=0", "gzip;q=1.0", "*", "zstd,zstd"}
 
+// vfC17Extended adds unknown codings whose names merely CONTAIN a codec name
+// (prefix, suffix, infix): exact token membership, never substring matching,
+// decides what was offered. The reference treats them as unknown codings.
+var vfC17Extended = append(append([]string{}, vfC17Alphabet...), "x-gzip", "zstd-dict", "notzstd")
+
 // vfC17Header lets the explorer build one header: a token sequence of length
 // 0..maxLen joined with ",".
-func vfC17Header(x *venum.X, label string, maxLen int) string {
+func vfC17Header(x *venum.X, label string, maxLen int, alphabet []string) string {
 	var toks []string
 	for i := 0; i < maxLen; i++ {
-		c := x.Choose(len(vfC17Alphabet)+1, fmt.Sprintf("%s[%d]", label, i))
-		if c == len(vfC17Alphabet) {
+		c := x.Choose(len(alphabet)+1, fmt.Sprintf("%s[%d]", label, i))
+		if c == len(alphabet) {
 			break
 		}
-		toks = append(toks, vfC17Alphabet[c])
+		toks = append(toks, alphabet[c])
 	}
 	return strings.Join(toks, ",")
 }
@@ -407,8 +424,8 @@ func TestVerif_C17(t *testing.T) {
 	maxLen := venum.QT(2, 3)
 	producibles := [][]string{{"zstd", "gzip"}, nil, {"gzip"}, {"zstd"}}
 	venum.Explore(t, venum.Cfg{Name: "negotiation-function", Shardable: true}, func(x *venum.X) {
-		custom := vfC17Header(x, "custom", maxLen)
-		standard := vfC17Header(x, "standard", maxLen)
+		custom := vfC17Header(x, "custom", maxLen, vfC17Extended)
+		standard := vfC17Header(x, "standard", maxLen, vfC17Extended)
 		producible := producibles[x.Choose(len(producibles), "producible")]
 		enc, usedCustom := chooseResponseEncoding(custom, standard, producible)
 		want := vfC17Ref(custom, standard, producible)
@@ -432,8 +449,8 @@ func TestVerif_C17(t *testing.T) {
 	standardLen := venum.QT(1, 2)
 	venum.Explore(t, venum.Cfg{Name: "server-roundtrip", Shardable: true}, func(x *venum.X) {
 		// first point has fixed arity (sharding): the standard header's first token
-		standard := vfC17Header(x, "standard", standardLen)
-		custom := vfC17Header(x, "custom", customLen)
+		standard := vfC17Header(x, "standard", standardLen, vfC17Extended)
+		custom := vfC17Header(x, "custom", customLen, vfC17Alphabet)
 		level := vfC17Levels[x.Choose(len(vfC17Levels), "level")]
 		src := sources[x.Choose(len(sources), "source")]
 
